@@ -214,7 +214,7 @@ def _hexbytes(draw, n):
 
 
 @st.composite
-def object_set(draw, arch, secnames, max_size=48, max_objects=4, faults=(), with_relocs=True, id_names=True):
+def object_set(draw, arch, secnames, max_size=48, max_objects=4, faults=(), with_relocs=True, id_names=True, rtypes=None):
     """A list of object descriptions.  faults: subset of {"undef", "dup"}."""
     nobj = draw(st.integers(1, max_objects))
     objs = []
@@ -300,7 +300,10 @@ def object_set(draw, arch, secnames, max_size=48, max_objects=4, faults=(), with
                     }
                 )
         # relocations: disjoint, aligned data-word sites
-        rtypes = DATA_RELOCS.get(arch, []) if with_relocs else []
+        if rtypes is None:
+            rtypes = DATA_RELOCS.get(arch, [])
+        if not with_relocs:
+            rtypes = []
         if rtypes and o["symbols"]:
             for s in o["sections"]:
                 size = len(s["data"]) // 2
@@ -434,7 +437,7 @@ def link_case(draw, archs=("arm", "x86_64", "riscv", "xtensa", "microblaze", "ex
 
 
 @st.composite
-def simple_layout(draw, secnames, entry_candidates=(), min_size=0x4000, far=False):
+def simple_layout(draw, secnames, entry_candidates=(), min_size=0x4000, far=False, gaps=None):
     """A layout that places every given section, with generous memories (for
     objects whose section sizes are not known when the case is drawn)."""
     secnames = list(draw(st.permutations(list(secnames))))
@@ -455,7 +458,7 @@ def simple_layout(draw, secnames, entry_candidates=(), min_size=0x4000, far=Fals
     for m in mems:
         m["location"] = base
         m["size"] = draw(st.sampled_from([min_size, 4 * min_size, 0x800000 if far else 2 * min_size]))
-        gap = draw(st.sampled_from([0, 0x10, 0x1000, 0x1234, 0x100000, 0x7F0000] + ([0x8000000] if far else [])))
+        gap = draw(st.sampled_from(list(gaps) if gaps is not None else [0, 0x10, 0x1000, 0x1234, 0x100000, 0x7F0000] + ([0x8000000] if far else [])))
         gap = gap // 4 * 4 if draw(st.integers(0, 3)) else gap + draw(st.sampled_from([1, 2, 3]))
         base = base + m["size"] + gap
     ld = {"entry": None, "memories": mems}
